@@ -1951,7 +1951,10 @@ static void run_decode_into(bool b64, struct placed *in, size_t cap, struct mon_
     void *store = mon_fence_new(cap);
     memset(store, 0xCC, cap);
     struct aws_byte_buf out = aws_byte_buf_from_empty_array(store, cap);
-    (void)r;
+    /* a re-used output buffer that was not reset still holds a length: whatever the decoder does with it, it stays inside */
+    if (mon_chance(r, 1, 2)) {
+        out.len = (size_t)mon_below(r, cap + 1);
+    }
     aws_reset_error();
     int rc = b64 ? aws_base64_decode(&cur, &out) : aws_hex_decode(&cur, &out);
     chk_rc(b64 ? "aws_base64_decode" : "aws_hex_decode", rc);
